@@ -229,3 +229,13 @@ PROPS["C07"] = dict(
     assumptions=["'listed files' = what Archive::list returns (names from the (listfile) that resolve); a source without (listfile) has no listed names and rebuild reports an error",
                  "special files (listfile)/(attributes) are carried as ordinary files; only (listfile)'s presence, not its bytes, is compared"],
 )
+
+PROPS["C10"] = dict(
+    rule="six small archives carrying each kind of integrity metadata (sector checksums V1/V2 with raw, compressed, multi-sector, encrypted and FIX_KEY files; full CRC32+MD5 attributes V1/V3; V4 header and table digests; a weak-signed V1 archive): the intact archive must verify, then every offset (thorough) or every 7th offset plus the first 8 and last 12 bytes (quick) of each protected region (stored file data incl. offset/checksum tables, the (attributes) file, header, hash/block/HET/BET tables, all signed bytes and the signature) is altered with four patterns (xor one byte, zero one byte, zero a run of 5, random run of 2..8) and the oracle requires: open/read/verify reports failure, or every file's content is still bit-identical (signature: must stop verifying). Plus signed byte strings of ~132 KiB with the signature block inside, at and across 64 KiB digest-unit boundaries, flipped bit by bit around the block and at random offsets, and the digest compared with MD5 of the bytes with the signature file zeroed. Lean ADLER32/CRC32 definitions are compared with adler2 / crc32fast on boundary-length and random buffers. non-trivial = an alteration that was detected; distinct by FNV hash of world+offset+pattern",
+    trusted_base=COMMON_TB + [
+        "MD5 is an abstract function in the theorems; its collision resistance (and RSA's) is assumed, not proved",
+        "checksums detect every single-byte change (theorem) but multi-byte changes only up to collision probability; those are sampled by the harness",
+        "a panic on a damaged archive counts as 'not silently accepted' here; absence of panics is C05's subject",
+    ],
+    assumptions=["protected bytes = the stored bytes of a checksummed file incl. its sector offset and checksum tables; the (attributes) file and the data of files it covers; V4 header and tables; every byte the weak signature's digest covers and the 64 signature bytes (not the 8 unsigned header bytes of the signature file)"],
+)
